@@ -543,6 +543,22 @@ pub fn directed_bytes() -> Vec<CaseBytes> {
             }
         }
     }
+    // \uXXXX escapes at every boundary of the surrogate range and of the code space, alone, in
+    // pairs, in member names, in both letter cases
+    let hexes = ["0000", "001f", "007f", "0080", "07ff", "0800", "d7ff", "d800", "d801", "dbff", "dc00", "dc01", "dffe", "dfff", "e000", "fffd", "fffe", "ffff", "DFFF", "D800", "DbFf"];
+    for (i, a) in hexes.iter().enumerate() {
+        for (j, layout) in [0u8, 1, 2].iter().enumerate() {
+            let text = match layout {
+                0 => format!("\"\\u{}\" 2\n", a),
+                1 => format!("{{\"k\\u{}\":[\"\\u{}x\"]}} 2\n", a, a),
+                _ => format!("[1,\"a\\u{}\\u{}\"] 2\n", a, hexes[(i * 7 + 3) % hexes.len()]),
+            };
+            v.push(CaseBytes { input: BytesS(text.into_bytes()), policy: ((i + j) % 4) as u8, pipeline: (i % 3) as u8 });
+        }
+        for b in &hexes {
+            v.push(CaseBytes { input: BytesS(format!("\"\\u{}\\u{}\"\n", a, b).into_bytes()), policy: (i % 4) as u8, pipeline: 0 });
+        }
+    }
     v
 }
 
